@@ -9,7 +9,7 @@ F = "ppci/build/tasks.py"
 
 
 def run(ctx):
-    ctx.rule("C34.R1", "loop-detection set holds exactly the current DFS path (add paired with remove on normal exit, or a fresh set passed down)", floor=1)
+    ctx.rule("C34.R1", "loop-detection set holds exactly the current DFS path (add paired with remove on normal exit, or a fresh set passed down)", floor=2)
     ctx.rule("C34.R2", "execution order is a dependency post-order, not a comparison sort over the partial order", floor=2)
     ctx.rule("C34.R3", "loop check precedes execution; run loop iterates the ordered list once", floor=3)
 
@@ -39,6 +39,16 @@ def run(ctx):
             ok = fresh or cfg.must_follow(st, is_remove, EXIT)
             ctx.ob("C34.R1", site, "`%s.add(%s)` is undone on every normal exit (otherwise a node reached twice through a diamond is reported as a loop)" % (s, arg),
                    ok, construct="add-remove-pairing", node=a)
+    # the on-path test is reached for EVERY dependency edge: nothing (an "already visited" shortcut) skips an edge before it
+    loops_ = [l for l in walk_no_nested(dfs) if isinstance(l, ast.For) and "dependencies" in norm(l.iter)]
+    ok = False
+    if len(loops_) == 1:
+        raising = [n for n in loops_[0].body if isinstance(n, ast.If) and any(isinstance(b, ast.Raise) for b in n.body)]
+        if raising:
+            before = loops_[0].body[: loops_[0].body.index(raising[0])]
+            ok = not any(isinstance(x, (ast.Continue, ast.Break, ast.Return)) for st in before for x in ast.walk(st))
+    ctx.ob("C34.R1", site, "every dependency edge is tested against the current path before anything may skip it (a `visited` shortcut placed first hides a cycle that does not pass through the requested target)", ok,
+           construct="on-path-test-first", node=loops_[0] if loops_ else dfs)
     # check_target starts from an empty set
     ct = ctx.fn(F, "Project.check_target")
     ok = any(isinstance(n, ast.Call) and norm(n) == "set()" for n in walk_no_nested(ct)) and bool(list(calls_in(ct, "dfs")))
